@@ -50,9 +50,9 @@ LinkOf(R, e) == IF e.corr < 0 THEN -1
 (***************************************************************************)
 (* C12: iteration numbers and trimming.                                    *)
 (***************************************************************************)
-\* profiler-step annotations are named "ProfilerStep#<n>"; generated traces use n < 64
+\* profiler-step annotations are named "ProfilerStep#<n>"; generated traces use n < 128
 StepNameOf(n) == "ProfilerStep#" \o ToString(n)
-StepNumbers == 0..63
+StepNumbers == 0..127
 AllStepNames == { StepNameOf(n) : n \in StepNumbers }
 StepNoFn == [ s \in AllStepNames |-> CHOOSE n \in StepNumbers : StepNameOf(n) = s ]
 IsStepName(name) == name \in AllStepNames
